@@ -97,7 +97,7 @@ fn run_natural_text(e: &Sexp) -> Result<Sexp, String> {
 fn gen_mu_program(rng: &mut Rng) -> Sexp {
     if rng.chance(4) {
         let mut cfg = crate::ext::taustar::TCfg::adversarial(rng);
-        cfg.huge = 10;
+        cfg.huge = 25;
         cfg.max_rules = 3;
         conv::program(&crate::ext::taustar::program(rng, &cfg))
     } else {
